@@ -357,6 +357,12 @@ def run_cases(res, cases, handler, compare=None):
             h = handler(case)
         except InternalError:
             raise
+        except Exception as e:   # the implementation (or the handler) raised: report it as a failing input, not as a crash of the check
+            tb = traceback.extract_tb(e.__traceback__)
+            where = next((f"{os.path.relpath(f.filename, REPO)}:{f.lineno}" for f in reversed(tb) if f.filename.startswith(REPO)), None)
+            if where is None:
+                raise
+            h = dict(ops=[], impl=[], viols=[(f"raise:{type(e).__name__}", f"{type(e).__name__}: {str(e)[:120]} at {where}")], nontrivial=None, tag="raised")
         res.evaluations += 1
         ops = h["ops"]
         spans.append((len(all_ops), len(all_ops) + len(ops)))
